@@ -69,7 +69,7 @@ class BaseTreeNodeFilter(Filter):
         values = [value or "" for value in values]  # convert None to ""
 
         for pattern in patterns:
-            if pattern[0] in _NEGATION_FLAGS:
+            if pattern and pattern[0] in _NEGATION_FLAGS:
                 if not fnmatch.filter(values, pattern[1:]):
                     return True
             else:
@@ -83,13 +83,13 @@ class BaseTreeNodeFilter(Filter):
             return True
 
         for key, value in patterns:
-            if key in key_values:
-                if value[0] in _NEGATION_FLAGS:
-                    if not fnmatch.fnmatch(key_values[key], value[1:]):
-                        return True
-                else:
-                    if fnmatch.fnmatch(key_values[key], value):
-                        return True
+            if value and value[0] in _NEGATION_FLAGS:
+                # a node that does not hold the property does not match the negated value either
+                if key not in key_values or not fnmatch.fnmatch(key_values[key], value[1:]):
+                    return True
+            else:
+                if key in key_values and fnmatch.fnmatch(key_values[key], value):
+                    return True
         return False
 
     @staticmethod
